@@ -221,6 +221,29 @@ func decList(s string) []string {
 	return out
 }
 
+// unHexRep decodes bytes given as `seg+seg+…` where a segment is hex or `N*hex` (N copies); nil, false if malformed.
+func unHexRep(s string) (string, bool) {
+	if s == "-" {
+		return "", true
+	}
+	var sb strings.Builder
+	for _, seg := range strings.Split(s, "+") {
+		n := 1
+		if i := strings.IndexByte(seg, '*'); i >= 0 {
+			v, err := strconv.Atoi(seg[:i])
+			if err != nil || v < 0 || v > 1<<22 {
+				return "", false
+			}
+			n, seg = v, seg[i+1:]
+		}
+		b := hx.UnHex(seg)
+		for ; n > 0; n-- {
+			sb.Write(b)
+		}
+	}
+	return sb.String(), true
+}
+
 func parseLine(line string) *op {
 	f := strings.Fields(line)
 	if len(f) < 2 || (f[0] != "pi" && f[0] != "pc") {
@@ -273,7 +296,11 @@ func parseLine(line string) *op {
 			o.decls = append(o.decls, d)
 		case 2:
 			if i := strings.IndexByte(w, '='); i >= 0 {
-				o.files = append(o.files, fileSpec{path: string(hx.UnHex(w[:i])), raw: true, data: string(hx.UnHex(w[i+1:]))})
+				data, ok := unHexRep(w[i+1:])
+				if !ok {
+					return nil
+				}
+				o.files = append(o.files, fileSpec{path: string(hx.UnHex(w[:i])), raw: true, data: data})
 				break
 			}
 			p := strings.Split(w, ":")
@@ -588,9 +615,86 @@ func runFx(f []string) {
 	fmt.Println("\nR returned")
 }
 
+// runAx drives the atexit registry: ax <status> <op>…; `r:<act>` registers a function (numbered by the ordinal of its
+// registration) that prints F<number> and then acts (p nothing; s/e/n/t/z panic with a string, an error, a runtime
+// error, a typed-nil pointer, nil; x calls Exit again; g registers function 900+number; u<k> unregisters the k-th
+// registration), `u<k>` unregisters the id the k-th Register returned (an id never handed out if there is no such
+// call). Then Exit(status), which must not return.
+func runAx(f []string, h uint64) {
+	if h&1 == 1 {
+		atexit.RecoveryHandler = nil
+	}
+	status, err := strconv.Atoi(f[1])
+	if err != nil {
+		fmt.Println("R bad-op")
+		return
+	}
+	var ids []int
+	idOf := func(k int) int {
+		if k >= 0 && k < len(ids) {
+			return ids[k]
+		}
+		mx := 0
+		for _, id := range ids {
+			mx = max(mx, id)
+		}
+		return mx + 1000 + k
+	}
+	n := 0
+	for _, w := range f[2:] {
+		switch {
+		case strings.HasPrefix(w, "r:"):
+			k, act := n, w[2:]
+			n++
+			ids = append(ids, atexit.Register(func() {
+				fmt.Printf("F%d\n", k)
+				os.Stdout.Sync() //nolint:errcheck
+				switch {
+				case act == "s":
+					panic("exit function panics with a string")
+				case act == "e":
+					panic(errors.New("exit function panics with an error"))
+				case act == "n":
+					var m map[string]int
+					m["x"] = 1 // runtime error
+				case act == "t":
+					var e *rejectErr
+					panic(e)
+				case act == "z":
+					panic(nil) //nolint:govet
+				case act == "x":
+					atexit.Exit(status + 1)
+				case act == "g":
+					atexit.Register(func() { fmt.Printf("F%d\n", 900+k) })
+				case strings.HasPrefix(act, "u"):
+					if j, e := strconv.Atoi(act[1:]); e == nil {
+						atexit.Unregister(idOf(j))
+					}
+				}
+			}))
+		case strings.HasPrefix(w, "u"):
+			j, e := strconv.Atoi(w[1:])
+			if e != nil {
+				fmt.Println("R bad-op")
+				return
+			}
+			atexit.Unregister(idOf(j))
+		default:
+			fmt.Println("R bad-op")
+			return
+		}
+	}
+	atexit.Exit(status)
+	fmt.Println("\nR exit-returned")
+}
+
 func runChild(line string) {
 	hh := fnv.New64a()
 	hh.Write([]byte(line)) //nolint:errcheck
+	if f := strings.Fields(line); len(f) >= 2 && f[0] == "ax" {
+		runAx(f, hh.Sum64())
+		return
+	}
 	cmdline.AppVersion = versionMark
 	cmdline.BuildNumber = "B"
 	cmdline.VCSModified = false
@@ -668,6 +772,23 @@ func childOnce(line string, limit time.Duration) string {
 	if strings.Contains(so.String(), "UNREGISTERED-RAN") {
 		return "child:unregistered-exit-function-ran"
 	}
+	if strings.HasPrefix(line, "ax ") {
+		if result != "" {
+			return result
+		}
+		var ran []string
+		for _, l := range strings.Split(so.String(), "\n") {
+			if len(l) > 1 && l[0] == 'F' {
+				if _, e := strconv.Atoi(l[1:]); e == nil {
+					ran = append(ran, l[1:])
+				}
+			}
+		}
+		if len(ran) == 0 {
+			return fmt.Sprintf("exit %d run ~", status)
+		}
+		return fmt.Sprintf("exit %d run %s", status, strings.Join(ran, ","))
+	}
 	if strings.HasPrefix(line, "fx ") {
 		where := "none"
 		switch {
@@ -705,6 +826,12 @@ func (area) Run(line string) string {
 		return "skipped-after-crash"
 	}
 	ensureDir()
+	if strings.HasPrefix(line, "ax ") {
+		if len(strings.Fields(line)) < 2 {
+			return "bad-op"
+		}
+		return viaChild(line)
+	}
 	if strings.HasPrefix(line, "fx ") {
 		if len(strings.Fields(line)) != 3 {
 			return "bad-op"
